@@ -810,7 +810,11 @@ PROPERTY = Property(
           "after one episode start per sequence replaced (no-leak). A small grid adds the corner shapes (T=1, E=1, dones on the "
           "first / last stored step / next_done, gamma, lambda in {0, 1}). A ROLLOUT is non-trivial when T >= 2, E >= 2, it has "
           ">= 1 interior done and (IPPO) a policy shared by >= 2 agents; distinct by (algo, groups, order, T, E, masks, gamma, lambda); "
-          "ctx.nontrivial is called per rollout"),
+          "ctx.nontrivial is called per rollout. LOOP obligations: the real train_on_policy (PPO; single env or 1-3 vectorised "
+          "envs) / train_multi_agent_on_policy (IPPO; 1-3 agents x 1-3 envs) run 1-4 rollouts of 1-8 steps on a scripted env "
+          "whose per-(agent, env) episode ends cycle through a drawn list over {none, terminated, truncated, both}; every rollout "
+          "handed to learn() is compared cell by cell with the env's own log; non-trivial = at least one episode end inside the "
+          "recorded rollouts, distinct by (algo, envs, agents, script, learn_step, evo_steps, max_steps)"),
     obligations=[
         Obligation("ppo_gae_rows", run_case, strategy=ppo_strategy, enumerate=ppo_grid,
                    examples={"quick": 32, "thorough": 250}, shards={"quick": 5, "thorough": 16},
@@ -828,6 +832,9 @@ PROPERTY = Property(
     assumptions=[
         "stored dones[t] is the done flag produced by step t-1 (dones[0] = 0), next_done the one produced by the last step - as "
         "train_on_policy / train_multi_agent_on_policy store them; so d_{t+1} of the statement is dones[t+1] resp. next_done",
+        "loop obligations: the environment is duck-typed (num_envs + the gymnasium / PettingZoo-parallel call signatures the loops "
+        "use), tournament=None, mutation=None; dones[0] of a rollout is not examined (no estimate reads it); an exception out of "
+        "the loop is labelled and left to C20, rollouts recorded before it are still compared",
         "rollouts are shaped as the vectorised branches of the loops produce them (E >= 1 envs; IPPO per-agent log-probs / values "
         "of shape (E, 1), Discrete actions (E, 1)); the non-vectorised branches belong to C20",
         "gamma, gae_lambda and batch_size are set as attributes on the built learner before each rollout (as hyper-parameter "
@@ -844,5 +851,6 @@ PROPERTY = Property(
                    "lam=1", "lam=interior", "done@step0", "done@stored_dones[T-1]", "done@next_done", "no-done", "groups=1", "groups=2",
                    "groups=3", "groups=2+1", "groups=2+2", "nontrivial-rollout", "noleak-checked:interior_done",
                    "noleak-checked:final_next_done", "every-cell-applied-exactly-once", "obs=vector", "obs=image", "obs=dict",
-                   "act=discrete", "act=box", "act=multidiscrete"],
+                   "act=discrete", "act=box", "act=multidiscrete", "end-kind=truncation", "end-kind=termination",
+                   "end-kind=termination+truncation", "end@last-step-of-rollout", "end@first-step-of-rollout", "E=single"],
 )
